@@ -77,6 +77,22 @@ Theorem C09_change_is_never_lost :
   forall prev, prev <> PInvalidated -> is_Some (deliver prev NUChanged).
 Proof. exact changed_is_never_lost. Qed.
 
+(* ---- no callback after disallow_future_use / the last handle is dropped / unsubscribe *)
+(* the handlers of a disallowed observer are not run: run_all touches nothing *)
+Theorem C09_disallowed_observer_hears_nothing :
+  forall o n nu now s ob,
+    obss s !! o = Some ob -> o_state ob = ODisallowed -> run_all o n nu now s = (Ok tt, s).
+Proof. exact run_all_disallowed. Qed.
+
+(* after unsubscribe returns, the observer's table holds no handler with that token: run_all, which only walks
+   the table, cannot call it again *)
+Theorem C09_unsubscribed_handler_is_gone :
+  forall o tok s c s',
+    unsubscribe o o tok s = (Ok c, s') ->
+    forall ob', obss s' !! o = Some ob' -> (o_state ob' = OInUse \/ o_state ob' = OCreated) ->
+      Forall (fun h => hd_token h <> tok) (o_handlers ob').
+Proof. exact unsubscribe_removes. Qed.
+
 (* ---- from "the node changed" to "its handlers are told": the queue.
    [has_inv s]: every live node whose is_in_handle_after_stabilisation flag is set is on the state's
    handle_after_stabilisation stack, and the stack names existing nodes only.  It holds in every state
@@ -141,3 +157,5 @@ Print Assumptions C09_end_of_stabilise_in_two_steps.
 Print Assumptions C09_deferred_writes_keep_the_stack.
 Print Assumptions C09_every_live_queued_node_is_reported.
 Print Assumptions C09_node_handler_table.
+Print Assumptions C09_disallowed_observer_hears_nothing.
+Print Assumptions C09_unsubscribed_handler_is_gone.
